@@ -1,7 +1,7 @@
 """C09 — a batched job fires on the union of its times; equivalent times are rejected."""
 from __future__ import annotations
 
-from .. import core, gen, impl_thr, scen
+from .. import core, gen, impl_thr, runlib, scen
 from . import c01, c08
 
 ID = "C09"
@@ -77,7 +77,7 @@ def scenarios(rng, n, tier):
                 scn["ops"].append({"op": "exec", "rel": [0, rng.choice([0, 0, 1])]})
             yield scn
         else:
-            opts = {"calls": [1, 2, 3, 4], "p_single": 0.0, "max_entries": 5, "p_skip": 0.0, "p_nodelay": 0.0, "p_stop": 0.05,
+            opts = {"calls": [1, 2, 3, 4], "p_single": 0.0, "max_entries": 5, "p_skip": 0.0, "p_nodelay": 0.0, "p_stop": 0.25,
                     "p_limit": 0.0, "max_jobs": 1, "p_force": 0.05, "p_start": 0.5, "max_polls": 4}
             scn = scen.gen_life(rng, opts)
             ne = len(scn["ops"][0]["timings"])
@@ -88,6 +88,8 @@ def scenarios(rng, n, tier):
 
 def specs(r):
     qs = [q for q in c08.specs(r) if q[1]["what"] == "none_lost_enumeration"]
+    # "without omission": a stop ends the enumeration only when the next occurrence of the union lies past it
+    qs += runlib.stop_retirement_specs(r, c08.tms_tokens)
     scn = r["scn"]
     for i, o in enumerate(scn["ops"]):
         if i >= len(r["obs"]) or "truncated" in r["obs"][i]:
